@@ -145,6 +145,7 @@ type iterInfo struct {
 }
 
 type loopInfo struct {
+	variantHdr  *Term // value of the loop variant at the head (nil: no variant)
 	assumeStart int // number of root assumptions when the loop head was havocked (loop-modular slice)
 	header     *ssa.BasicBlock
 	blocks     map[*ssa.BasicBlock]bool
